@@ -65,6 +65,9 @@ Definition MinPrec (x : Dec) : option Z :=
   | _ => Some 0
   end.
 
+(* x.MantExp(nil): the exponent of a finite x, 0 for zero and infinity *)
+Definition mexp (x : Dec) : Z := match dform x with Ffinite => exp x | _ => 0 end.
+
 (* ---- toa ---- *)
 Definition toa (x : Dec) : option (bytes * Z) :=
   match dform x with
@@ -162,26 +165,28 @@ Definition ores_opt (r : ores) : option Dec :=
    Returns the (possibly new) x. *)
 Definition round_for_fmt (x : Dec) (fmt prec digits : Z) : option Dec :=
   let rnd := if is_eE fmt then 1 + prec
-             else if fmt =? 102 then Z.max (exp x + prec) 0
+             else if fmt =? 102 then Z.max (mexp x + prec) 0
              else if is_gG fmt then (if prec =? 0 then 1 else prec)
              else 0 in
-  if (rnd =? 0) && (0 <? digits) then
-    (* u := new(Decimal).setBits64(x.neg, 1, 1-prec);
-       t := new(Decimal).SetMode(x.mode).SetPrec(2).Add(x, u); x = t.Sub(t, u) *)
-    match setBits64 dec_zero (neg x) 1 (1 - prec) with
-    | Some u =>
-        match ores_opt (SetMode dec_zero (dmode x)) with
-        | Some t0 =>
-            match ores_opt (SetPrec t0 2) with
-            | Some t1 =>
-                match ores_opt (Add false false t1 x u) with
-                | Some t => ores_opt (Sub true false t t u)
-                | None => None
-                end
-            | None => None
-            end
-        | None => None
-        end
+  if (fmt =? 102) && (rnd =? 0) && (0 <? digits) then
+    (* the rounding position is at or above the leading digit: the result is
+       zero or one unit in the last place, decided by the mode (and, for the
+       nearest modes, by the leading digit when it sits just below the
+       rounding position) *)
+    let up :=
+      match dmode x with
+      | AwayFromZero => true
+      | ToNegativeInf => neg x
+      | ToPositiveInf => negb (neg x)
+      | ToZero => false
+      | ToNearestEven | ToNearestAway =>
+          if exp x + prec =? 0 then
+            let d := dec_digit (mant x) (zlen (mant x) * DW - 1) in
+            (5 <? d) || ((d =? 5) && (mode_eqb (dmode x) ToNearestAway || (1 <? digits)))
+          else false
+      end in
+    match ores_opt (SetMode dec_zero (dmode x)) with
+    | Some t => if up then setBits64 t (neg x) 1 (- prec) else Some (with_neg t (neg x))
     | None => None
     end
   else if rnd <? digits then
@@ -213,7 +218,7 @@ Definition Append (buf : bytes) (x : Dec) (fmt prec : Z) : option bytes :=
             let prec1 :=
               if shortest then
                 (if is_eE fmt then digits0 - 1
-                 else if fmt =? 102 then Z.max (digits0 - exp x) 0
+                 else if fmt =? 102 then Z.max (digits0 - mexp x) 0
                  else if is_gG fmt then digits0
                  else prec)
               else if is_gG fmt && (prec =? 0) then 1 else prec in
@@ -226,15 +231,15 @@ Definition Append (buf : bytes) (x : Dec) (fmt prec : Z) : option bytes :=
                     if is_eE fmt then fmtE buf1 x1 fmt prec1
                     else if fmt =? 102 then fmtF buf1 x1 prec1
                     else if is_gG fmt then
-                      let eprec := if (digits <? prec1) && (exp x1 <=? digits) then digits else prec1 in
+                      let eprec := if (digits <? prec1) && (mexp x1 <=? digits) then digits else prec1 in
                       let eprec := if shortest then 6 else eprec in
-                      let e := exp x1 - 1 in
+                      let e := mexp x1 - 1 in
                       if (e <? -4) || (eprec <=? e) then
                         let prec2 := if digits <? prec1 then digits else prec1 in
                         fmtE buf1 x1 (fmt + 101 - 103) (prec2 - 1)
                       else
-                        let prec2 := if exp x1 <? prec1 then digits else prec1 in
-                        fmtF buf1 x1 (Z.max (prec2 - exp x1) 0)
+                        let prec2 := if mexp x1 <? prec1 then digits else prec1 in
+                        fmtF buf1 x1 (Z.max (prec2 - mexp x1) 0)
                     else
                       (* unknown format: the sign is dropped if the *current* x is negative *)
                       if neg x1 then
